@@ -14,7 +14,14 @@ THEOREMS = [
     ("Anytree.Props.C13.mermaid_lines_pure", "full"),
     ("Anytree.Props.C13.mermaid_default_eq_pure", "full"),
     ("Anytree.Props.C13.D2_witness", "witness"),
+    ("Anytree.Props.C13b.mermaid_edges_between_declared", "full"),
+    ("Anytree.Props.C12.no_admitted_link_missing", "full"),
+    ("Anytree.Props.C13b.mermaid_declared_have_ids", "full"),
+    ("Anytree.Props.C13b.mermaid_default_names_distinct", "full"),
+    ("Anytree.Props.C13b.mermaidFmt_injective", "full"),
+    ("Anytree.Props.C12.esc_injective", "full"),
 ]
+MODULES = ["Anytree.Props.C13", "Anytree.Props.C12", "Anytree.Props.C13b"]
 NOT_COVERED = []
 PREDICATE_SPEC = True
 RULE = ("as C12, for MermaidExporter: exhaustive small shapes x stop x filter x maxlevel, all start nodes of shapes up to 5/6 nodes, "
